@@ -247,6 +247,7 @@ func main() {
 		rnd.Read(s[:])
 		runCase(s, lens, readerModes[rnd.Intn(len(readerModes))])
 	}
+	highCounters(r, rnd)
 	duplex(r, rnd)
 	queued(r, rnd)
 	r.Floor("queued_messages", int(r.Counter("queued_messages")), 1000)
@@ -429,5 +430,82 @@ func queued(r *vf.Run, rnd *rand.Rand) {
 		r.Evals(k)
 		r.Count("queued_messages", k)
 		r.Nontrivial(fmt.Sprintf("queued/%v", lens))
+	}
+}
+
+// highCounters: a long-lived session.  Both ends are advanced by N one-byte messages (compared with the reference
+// only at the end of the advance), then messages of several frames are exchanged across the 2^8, 2^16 (and, thorough,
+// 2^17 and 2^20) frame-counter boundaries and compared frame by frame with the reference framing at that counter.
+func highCounters(r *vf.Run, rnd *rand.Rand) {
+	targets := []int{250, 65530}
+	if r.Thorough() {
+		targets = append(targets, 131066, 1048570)
+	}
+	for _, n := range targets {
+		var secret [32]byte
+		rnd.Read(secret[:])
+		acc, err1 := crypto.NewSecureSessionFromSharedKey(secret)
+		ctl, err2 := crypto.NewSecureClientSessionFromSharedKey(secret)
+		if err1 != nil || err2 != nil {
+			r.Inconclusive("session constructors failed")
+			return
+		}
+		_, a2c := refctl.SessionKeys(secret[:])
+		ref := &refctl.Framer{Key: a2c}
+		one := []byte{0x55}
+		for i := 0; i < n; i++ {
+			e, err := acc.Encrypt(bytes.NewReader(one))
+			if err != nil {
+				r.Violation("high-counter:encrypt-error", fmt.Sprintf("Encrypt of message %d of a long session failed: %v", i, err), nil)
+				return
+			}
+			wire, _ := ioutil.ReadAll(e)
+			want := ref.SealFrames(one, nil)
+			if !bytes.Equal(wire, want) {
+				r.Violation("high-counter:wire-mismatch", fmt.Sprintf("frame %d of a long session differs from the reference framing at that counter", i),
+					map[string]interface{}{"frame_counter": i, "hc_wire": vf.Hex(wire), "reference_wire": vf.Hex(want), "secret": vf.Hex(secret[:])})
+				return
+			}
+			d, err := ctl.Decrypt(bytes.NewReader(wire))
+			if err != nil {
+				r.Violation("high-counter:decrypt-error", fmt.Sprintf("frame %d of a long session is rejected by hc's other end: %v", i, err), map[string]interface{}{"frame_counter": i})
+				return
+			}
+			if got, _ := ioutil.ReadAll(d); !bytes.Equal(got, one) {
+				r.Violation("high-counter:roundtrip-mismatch", fmt.Sprintf("frame %d of a long session decrypts to other bytes", i), map[string]interface{}{"frame_counter": i})
+				return
+			}
+		}
+		// across the boundary with multi-frame messages
+		for k := 0; k < 6; k++ {
+			p := make([]byte, []int{1, 1024, 3000, 2048, 17, 5000}[k])
+			rnd.Read(p)
+			e, err := acc.Encrypt(bytes.NewReader(p))
+			if err != nil {
+				r.Violation("high-counter:encrypt-error", fmt.Sprintf("Encrypt failed at frame counter %d: %v", ref.Count, err), nil)
+				return
+			}
+			at := ref.Count
+			wire, _ := ioutil.ReadAll(e)
+			want := ref.SealFrames(p, nil)
+			if !bytes.Equal(wire, want) {
+				r.Violation("high-counter:wire-mismatch", fmt.Sprintf("a %d byte message sealed at frame counter %d differs from the reference framing", len(p), at),
+					map[string]interface{}{"frame_counter": at, "payload_len": len(p), "secret": vf.Hex(secret[:])})
+				return
+			}
+			d, err := ctl.Decrypt(bytes.NewReader(wire))
+			if err != nil {
+				r.Violation("high-counter:decrypt-error", fmt.Sprintf("a %d byte message at frame counter %d is rejected by hc's other end: %v", len(p), at, err), nil)
+				return
+			}
+			if got, _ := ioutil.ReadAll(d); !bytes.Equal(got, p) {
+				r.Violation("high-counter:roundtrip-mismatch", fmt.Sprintf("a %d byte message at frame counter %d decrypts to other bytes", len(p), at), nil)
+				return
+			}
+		}
+		r.Evals(n + 6)
+		r.Count("high_counter_frames", int(ref.Count))
+		r.Distinct("frame_counter_boundary_crossed", fmt.Sprint(n))
+		r.Nontrivial(fmt.Sprintf("high-counter/%d", n))
 	}
 }
